@@ -191,7 +191,10 @@ CLAIMED = {
              'refutation witness (known finding), its independence of start atom/direction for a single ring (finite), set-based descriptor '
              'counting. Dictionary level (C03_descriptors_renumbering): for every scheme with reader-produced prefix-free patterns and a chain-free remap '
              'table, the returned descriptor dictionary (centre assignment, group naming, distinct-set descriptor counts, remaps, '
-             'groups.update(descriptors)) of the renumbered prepared graph is the same map. PARTIAL only in that RDKit producing isomorphic prepared '
+             'groups.update(descriptors)) of the renumbered prepared graph is the same map; and at the level of the model entry point: the Benson '
+             'aromatisation commutes with the renumbering when the ring list is carried along in the same order, so get_descriptors on the renumbered '
+             'input fails exactly when the original fails and otherwise returns the same map (C03_get_descriptors_renumbering) - the ORDER of the '
+             'ring list is the only spelling dependence (refuted for fused rings: known finding). PARTIAL only in that RDKit producing isomorphic prepared '
              'graphs for equivalent spellings is external; it is decided on the implementation on every run: all atom permutations for <=6 heavy atoms, random renumberings and random '
              'SMILES, Kekule form, explicit hydrogens, molecule object - identical descriptors or identical failure.',
         design='5 / C03',
@@ -205,7 +208,9 @@ CLAIMED = {
              'fragments are proved connected. Dictionary level: centre names of the mixture are those of the components (C04_centres_of_mixture), the group '
              'counts and the correction-descriptor counts of the mixture are the entry-wise sums after remaps (C04_groups_additive, '
              'C04_correction_descriptors_additive), and the returned dictionary is the sum whenever no occurring correction-descriptor name is also an '
-             'occurring group name (C04_descriptors_additive; groups.update(descriptors) replaces). PARTIAL only in the RDKit front end (ring list of a '
+             'occurring group name (C04_descriptors_additive; groups.update(descriptors) replaces); at the level of the model entry point the '
+             'aromatisation acts component by component and get_descriptors on the mixture succeeds exactly when it succeeds on both components '
+             'and then returns that sum (C04_get_descriptors_of_mixture). PARTIAL only in the RDKit front end (ring list of a '
              'disconnected molecule = union of the components\' ring lists); decided on the implementation on every run: stress pairs in both orders, random pairs, self-pairs and '
              'triples incl. undecomposable components.',
         design='5 / C04',
